@@ -48,13 +48,11 @@ def outputStr (o : Output) : String :=
   | .outOfFuel => "model-out-of-fuel"
   | .oom => "model-oom"
   | f =>
-    -- `Reader::cids` computes `0..max_cid + 1`
-    if o.maxCid = i32Max then "panic" else
     let fs := match f with
       | .finished => "end"
       | .err e => "err:" ++ errStr e
       | _ => "?"
-    s!"{fs} {o.maxCid} {o.items.length} {if o.items.isEmpty then "-" else " ".intercalate (o.items.map itemStr)}"
+    s!"{fs} {o.cidsEnd} {o.items.length} {if o.items.isEmpty then "-" else " ".intercalate (o.items.map itemStr)}"
 
 /-- 2^24 `VecMap` slots: far above every client id the generator produces -/
 def memCids : Nat := 16777216
